@@ -58,7 +58,9 @@ let answer line =
     let be = batch_end_of (parse_layouts lays) (nat rpt) in
     id ^ "\t" ^ (match run_on_range be (nat fuel) (key_of s) (key_of e) with
                  | Some l -> "ok\t" ^ show_ranges l | None -> "none")
-  | ["gc"; id; fuel; sp; limit; st; subs] ->
+  | ["gc"; id; fuel; sp; limit; st; subs] | ["gcv"; _; id; fuel; sp; limit; st; subs] ->
+    (* gcv <T|U|I>: the ScanLock answer view (typed / untyped / identity); plain gc = typed *)
+    let view = (match split_tab line with "gcv" :: "U" :: _ -> untyped_view | "gcv" :: "I" :: _ -> (fun r -> r) | _ -> typed_view) in
     (* subs = sub-ranges handled one after the other: s~e~oracle;oracle;... separated by spaces *)
     let rec go st subs acc = match subs with
       | [] -> "ok\t" ^ String.concat " # " (List.rev acc) ^ "\t" ^ show_store st
@@ -66,7 +68,7 @@ let answer line =
         (match String.split_on_char '~' sub with
          | [s; e; os] ->
            let os = List.map parse_oracle (split_on ';' os) in
-           (match gc_resolve_range (nat fuel) (n_of_hex sp) (nat limit) (key_of s) (key_of e) os st with
+           (match gc_resolve_range_v view (nat fuel) (n_of_hex sp) (nat limit) (key_of s) (key_of e) os st with
             | GcOk (st', tr) -> go st' rest (show_trace tr :: acc)
             | GcOutOfFuel -> "fuel" | GcBadOracle -> "bad\t" ^ String.concat " # " (List.rev acc))
          | _ -> failwith ("sub " ^ sub)) in
